@@ -208,7 +208,7 @@ async fn run_remote(
     join_handles(handles).await;
 
     if !plan.delete.is_empty() {
-        apply_remote_deletes(dir, host, remote_root, local_root, &plan.delete).await;
+        apply_remote_deletes(dir, host, remote_root, local_root, &plan.delete, &progress).await;
     }
     report(start, &progress, &plan, &src_desc, &dst_desc, opts.verbose)
 }
@@ -233,17 +233,29 @@ async fn deliver_pull(
 
 /// Delete the mirror's stale files. Pull deletes locally; push batches one
 /// `xargs rm` over SSH.
+/// Remove one stale destination file. A removal that fails is a failed step of the run (it
+/// must not exit 0 claiming a mirror it did not produce); an already-absent file is fine.
+fn remove_stale(path: &Path, rel: &Path, progress: &TransferProgress) {
+    match std::fs::remove_file(path) {
+        Err(e) if e.kind() != std::io::ErrorKind::NotFound => {
+            progress.record_err(&rel.display().to_string(), &format!("delete: {e}"));
+        }
+        _ => {}
+    }
+}
+
 async fn apply_remote_deletes(
     dir: Dir,
     host: &str,
     remote_root: &str,
     local_root: &Path,
     dels: &[PathBuf],
+    progress: &TransferProgress,
 ) {
     match dir {
         Dir::Pull => {
             for rel in dels {
-                let _ = std::fs::remove_file(local_root.join(rel));
+                remove_stale(&local_root.join(rel), rel, progress);
             }
         }
         Dir::Push => {
@@ -263,21 +275,32 @@ async fn apply_remote_deletes(
                 remote_root.replace('\\', "\\\\").replace('\'', "\\'")
             );
             let n = list.len();
-            if let Ok(mut child) = tokio::process::Command::new("ssh")
+            // (the staged list is removed either way; the status is that of the deletes)
+            let outcome = match tokio::process::Command::new("ssh")
                 .arg(host)
                 .arg(format!(
-                    "cat > $'{staged}' && test \"$(wc -c < $'{staged}')\" -eq {n} && xargs -0 rm -f -- < $'{staged}'; rm -f -- $'{staged}'"
+                    "{{ cat > $'{staged}' && test \"$(wc -c < $'{staged}')\" -eq {n} && xargs -0 rm -f -- < $'{staged}' && rm -f -- $'{staged}'; }} || {{ rm -f -- $'{staged}'; false; }}"
                 ))
                 .stdin(std::process::Stdio::piped())
                 .stdout(std::process::Stdio::null())
                 .stderr(std::process::Stdio::piped())
                 .spawn()
             {
-                if let Some(mut stdin) = child.stdin.take() {
-                    let _ = stdin.write_all(list.as_bytes()).await;
-                    drop(stdin);
+                Ok(mut child) => {
+                    if let Some(mut stdin) = child.stdin.take() {
+                        let _ = stdin.write_all(list.as_bytes()).await;
+                        drop(stdin);
+                    }
+                    match child.wait_with_output().await {
+                        Ok(o) if o.status.success() => Ok(()),
+                        Ok(o) => Err(String::from_utf8_lossy(&o.stderr).trim().to_string()),
+                        Err(e) => Err(e.to_string()),
+                    }
                 }
-                let _ = child.wait_with_output().await;
+                Err(e) => Err(e.to_string()),
+            };
+            if let Err(e) = outcome {
+                progress.record_err("(stale files)", &format!("remote delete failed: {e}"));
             }
         }
     }
@@ -331,7 +354,7 @@ async fn run_local(
 
     if !plan.delete.is_empty() {
         for rel in &plan.delete {
-            let _ = std::fs::remove_file(dst.join(rel));
+            remove_stale(&dst.join(rel), rel, &progress);
         }
         eprintln!("Deleted {} stale file(s)", plan.delete.len());
     }
